@@ -174,6 +174,45 @@ def wide_program(rnd):
     }
 
 
+def overflow_program(rnd):
+    """A task makes a synchronous asynq call that runs away and is stopped by the (lowered) MAX_TASK_STACK_SIZE
+    guard; the caller catches the RuntimeError and carries on with ordinary batched work."""
+    n = [0]
+
+    def item(kind):
+        n[0] += 1
+        return ["leaf", ["item", kind, "ok%d" % n[0]]]
+
+    runaway = ["leaf", [rnd.choice(["runaway", "runaway", "lazyrunaway"]), rnd.choice([150, 400]), rnd.choice([0, 0, 1, 2, 3])]]
+    deep = [["yield", runaway]]
+    if rnd.random() < 0.5:
+        deep.insert(0, ["yield", item(1)])
+    caller = [
+        ["yield", item(0)],
+        ["try", [["sync", "so1", 2, rnd.choice(["call", "value"])]], "exc", ([["yield", item(rnd.randrange(2))]] if rnd.random() < 0.6 else []), []],
+        ["yield", ["tuple", [item(0), item(1)]]],
+        ["read", "sv0"],
+    ]
+    if rnd.random() < 0.5:
+        caller = [["with", rnd.choice([["actx", "oc"], ["ov", "sv0", 77]]), caller]]
+    top = rnd.random() < 0.5
+    nodes = [
+        {"style": "asynq", "ret": "return", "body": caller if top else [["yield", ["list", [["leaf", ["call", "oc1", 1]], item(1)]]], ["yield", item(0)]]},
+        {"style": rnd.choice(["asynq", "method"]), "ret": "return", "body": [["yield", item(1)]] if top else caller},
+        {"style": "asynq", "ret": "return", "body": deep},
+    ]
+    return {
+        "nodes": nodes,
+        "root": 0,
+        "shared": [],
+        "kinds": 2,
+        "faults": {},
+        "flush_faults": {},
+        "max_stack": rnd.choice([40, 90]),
+        "defaults": {"sv0": "dflt-sv0", "sv1": "dflt-sv1", "at0": "dflt-at0"},
+    }
+
+
 def run_once(prog, how, seed, settings, clock, outfile, in_thread=False):
     """One run of the program under the given option settings. in_thread: on a brand-new thread (fresh
     thread-local scheduler / profiler state, no profiler.reset() beforehand), as a worker thread would run it."""
@@ -202,6 +241,7 @@ def run_once(prog, how, seed, settings, clock, outfile, in_thread=False):
     opts = asynq.debug.options
     saved = {k: getattr(opts, k) for k in BOOL_OPTIONS}
     saved_int = opts.SCHEDULER_STATE_DUMP_INTERVAL
+    saved_max = opts.MAX_TASK_STACK_SIZE
     old_utime = S.utime
     size0 = os.fstat(outfile).st_size
     if in_thread is False:
@@ -213,6 +253,8 @@ def run_once(prog, how, seed, settings, clock, outfile, in_thread=False):
             opts.SCHEDULER_STATE_DUMP_INTERVAL = 0
         if clock is not None:
             S.utime = clock
+        if prog.get("max_stack"):
+            opts.MAX_TASK_STACK_SIZE = prog["max_stack"]
         rt = harness.HarnessRT(prog, prio=PRIO, seed=seed)
         # what a program can observe also includes who the active task is
         rt.step_probes.append(_active_probe)
@@ -223,6 +265,7 @@ def run_once(prog, how, seed, settings, clock, outfile, in_thread=False):
         for k, v in saved.items():
             setattr(opts, k, v)
         opts.SCHEDULER_STATE_DUMP_INTERVAL = saved_int
+        opts.MAX_TASK_STACK_SIZE = saved_max
     try:
         import sys
 
@@ -231,6 +274,9 @@ def run_once(prog, how, seed, settings, clock, outfile, in_thread=False):
     except Exception:
         pass
     nbytes = os.fstat(outfile).st_size - size0
+    # the captured text is only measured: do not let it pile up on disk
+    os.ftruncate(outfile, 0)
+    os.lseek(outfile, 0, os.SEEK_SET)
     stats = profiler.flush()
     return rt, out, nbytes, len(stats)
 
@@ -258,6 +304,9 @@ def run_unit(unit, progress):
         if i % 12 == 5:
             prog = wide_program(rnd)
             inc("wide_programs")
+        if i % 12 == 9:
+            prog = overflow_program(rnd)
+            inc("programs_recovering_from_the_recursion_guard_in_a_nested_sync_call")
         how = ["call", "value", "yielded", "yielded_value"][i % 4]
         # one program in three runs - under every option setting - on a brand-new thread each time
         thr = i % 3 == 1
@@ -363,7 +412,7 @@ def reach(c, tier):
     for k in printing:
         if not c.get("single_option_runs_with_diagnostic_output_" + k):
             out.append("option %s never produced diagnostic output" % k)
-    for k in ("profiler_entries", "perf_stats_runs_with_elapsed_over_2^31_us", "keep_dependencies_runs", "programs_with_sync_reentry", "programs_with_synchronous_item_value", "programs_ending_in_exception"):
+    for k in ("profiler_entries", "perf_stats_runs_with_elapsed_over_2^31_us", "keep_dependencies_runs", "programs_with_sync_reentry", "programs_with_synchronous_item_value", "programs_ending_in_exception", "programs_recovering_from_the_recursion_guard_in_a_nested_sync_call"):
         if not c.get(k):
             out.append("%s is zero" % k)
     return out
